@@ -891,3 +891,40 @@ func (f *Fn) DeferStale() []Site {
 	}
 	return out
 }
+
+// FailurePropagates checks that after a failed call of a (failure edge of the
+// test of its result) no `return …, nil` is reachable: the error is not swallowed.
+func (f *Fn) FailurePropagates(r *Rule, a *Sites, label string) bool {
+	key := f.Name + ": " + label
+	a = a.Sync()
+	r.AddSites(a.Len())
+	if a.Len() == 0 {
+		r.Fail(key, f.P.Pos(f.Body.Pos()), "no site of %q in %s (rule would be vacuous)", a.Desc, f.Name)
+		return false
+	}
+	nilRets := f.Find(ReturnsNilErr())
+	ok := true
+	for _, s := range a.List {
+		e, has := f.SuccessEdge(s)
+		if !has {
+			r.Fail(key, f.P.Pos(s.Node.Pos()), "the error of %s is not tested directly after the call", a.Desc)
+			ok = false
+			continue
+		}
+		cv := f.G.Vs[e[0]]
+		fail := cv.TrueSucc
+		if e[1] == cv.TrueSucc {
+			fail = cv.FalseSucc
+		}
+		for _, t := range nilRets.List {
+			if p := f.FPath([]int{fail}, t.V, nil, nil); p != nil {
+				r.Fail(key, f.P.Pos(t.Node.Pos()), "after %s failed a nil error can be returned (error swallowed); path (lines): %s", a.Desc, f.DescribePath(append([]int{cv.ID}, p...)))
+				ok = false
+			}
+		}
+		if p := f.FPath([]int{fail}, f.G.Exit, nilRets.Vs(), nil); p == nil && len(nilRets.List) == 0 {
+			_ = p
+		}
+	}
+	return ok
+}
